@@ -17,7 +17,7 @@ import (
 
 // IsSourceOffset: e selects DbSyncer.sourceOffset.
 func IsSourceOffset(info *types.Info, e ast.Expr) bool {
-	return core.IsFieldNamed(info, e, Syncer, "sourceOffset")
+	return FieldIs(info, e, Syncer, "sourceOffset")
 }
 
 // OffWriter is one classified write of DbSyncer.sourceOffset.
